@@ -104,6 +104,12 @@ func (e *Env) evalInt(x ast.Expr) *Term {
 }
 
 func (e *Env) lookupPkg(name string) *types.Package {
+	if strings.HasPrefix(name, "std") && len(name) > 3 {
+		// stdos, stdpath ...: the standard-library package when a repository package shadows its name
+		if p := e.eng.typesPkg(name[3:]); p != nil {
+			return p
+		}
+	}
 	if e.pkg != nil {
 		if e.pkg.Name() == name {
 			return e.pkg
